@@ -113,7 +113,7 @@ impl Property for C16 {
     }
 
     fn rule(&self) -> String {
-        "cases: loop programs with a bounded live set: n iterations (50..2500 quick, ..6000 thorough), each allocating 1-4 pieces of garbage of 17 kinds (vec, tuple, map, instance, closure, bound method, iterator, fiber run to completion, fiber abandoned while suspended, caught error object, map/collect chain, pooled strings, a loop over a range with new bounds in every iteration, slices and range values with changing bounds, a caught import of a module that does not compile next to an import that succeeds, a class declaration whose superclass is not a class, the items and keys of a 12-entry map and a closure over three variables) and overwriting one of K retained slots with a vector, tuple, instance, closure, map, bound method, a fiber run to completion by another fiber that looked at the previously kept one, or a closure returned by a fresh fiber that was handed the previously kept closure as its argument (K = 0, small, or up to 3000/6000, so survivors range from far below to far above the 64 KiB initial budget); a third of the programs first build and drop a structure of 500-6500 vectors, so that the live set shrinks sharply before the loop. Run in the optimised build with the threshold-paced collector. Oracle: (1) from the hook's allocation trace, with heap bytes recomputed from the object list at every collection (not from the collector's counter): before every allocation heap <= max(64 KiB, 2 x heap after the previous collection) + one allocation; (2) the same program with n and 2n iterations leaves the same census by type (strings, chunks and functions excluded; range objects may differ by the few the interpreter's range cache holds, not by a number that grows with n) after a forced collection; (3) after dropping the interpreter and collecting, the census equals the one taken before it was created. Non-trivial: >=3 collections with at least two different survivor sizes; distinct by program text.".into()
+        "cases: loop programs with a bounded live set: n iterations (50..2500 quick, ..6000 thorough), each allocating 1-4 pieces of garbage of 17 kinds (vec, tuple, map, instance, closure, bound method, iterator, fiber run to completion, fiber abandoned while suspended, caught error object, map/collect chain, pooled strings, a loop over a range with new bounds in every iteration, slices and range values with changing bounds, a caught import of a module that does not compile next to an import that succeeds, a class declaration whose superclass is not a class, the items and keys of a 12-entry map and a closure over three variables) and overwriting one of K retained slots with a vector, tuple, instance, closure, map, bound method, a fiber run to completion by another fiber that looked at the previously kept one, or a closure returned by a fresh fiber that was handed the previously kept closure as its argument (K = 0, small, or up to 3000/6000, so survivors range from far below to far above the 64 KiB initial budget); a third of the programs first build and drop a structure of 500-6500 vectors, so that the live set shrinks sharply before the loop; a sixth keep a linked list of 200-4000 instances alive in a global for the whole run (live data reached only through a chain of that many references). Run in the optimised build with the threshold-paced collector. Oracle: (1) from the hook's allocation trace, with heap bytes recomputed from the object list at every collection (not from the collector's counter): before every allocation heap <= max(64 KiB, 2 x heap after the previous collection) + one allocation; (2) the same program with n and 2n iterations leaves the same census by type (strings, chunks and functions excluded; range objects may differ by the few the interpreter's range cache holds, not by a number that grows with n) after a forced collection; (3) after dropping the interpreter and collecting, the census equals the one taken before it was created. Non-trivial: >=3 collections with at least two different survivor sizes; distinct by program text.".into()
     }
 
     fn assumptions(&self) -> Vec<String> {
